@@ -35,7 +35,8 @@ case "$ID" in
   C18) TARGET=addr; RUNS=300000; MAXLEN=500 ;;
   C09) TARGET=bank; RUNS=150000; MAXLEN=2500 ;;
   C17) TARGET=routing; RUNS=300000; MAXLEN=64 ;;
-  C01|C02|C03|C04|C05|C08|C10|C11|C12|C13) TARGET=tree; RUNS=100000; MAXLEN=12000 ;;
+  C01|C02|C13) TARGET=tree; RUNS=40000; MAXLEN=12000 ;;   # every execution re-runs each call once per failure site
+  C03|C04|C05|C08|C10|C11|C12) TARGET=tree; RUNS=100000; MAXLEN=12000 ;;
   C14|C15|C16) TARGET=staking; RUNS=150000; MAXLEN=1600 ;;
   *) exit 0 ;;
 esac
